@@ -130,6 +130,16 @@ CLAIMS = {
         note="Trusted: C01 reference table; ECSS-E-ST-70-41C 8.1.2 report structure. Decoder analysed for timestamp lengths 0 and 7 and "
              "2 (quick) / 4 (thorough) width pairs.",
         technique=TECH + "; finite case analysis over subservices and parameter presence"),
+    "C16": dict(
+        text="Static analysis: add_tm -> _check_subservice -> helpers is abstractly interpreted once with a symbolic subservice and a "
+             "symbolic old status; the closed terms of the five status fields, the step list and result.completed are specialised to "
+             "all 8 x 162 (subservice, old status) pairs (exhaustive finite case analysis on extracted terms) and compared with a "
+             "reference transition table; the one-step invariants (finished flag never reverts, failed step kept, completed flag "
+             "set exactly for {2,4,6,7,8}, only the own stage changes) are checked on the same evaluations and are inductive, which "
+             "covers every history; isolation by the store log; refusals and the two removal filters structurally.",
+        note="Trusted: the reference table in spverif/props/c16.py (documented behaviour; where the documentation is silent it records "
+             "the documented meaning of 'all verifications received'); dictionary-key soundness of RequestId is C15's obligation.",
+        technique="ast-based abstract interpretation (gated terms) + exhaustive finite case analysis of the extracted transition function + store-log alias analysis"),
 }
 
 NOT_CLAIMED = {}
